@@ -47,7 +47,7 @@ def check_batches(g, kind, mins, maxs, tmin, tmax, ncalls, cfg, fails):
                             fails.append(f"call {k}: border points of facet {f} are not on it")
         else:
             tx = np.asarray(b.times_x_inside_batch)
-            n_exp = cfg["bt"] * cfg["bx"]
+            n_exp = cfg["bt"] if cfg.get("pairing") else cfg["bt"] * cfg["bx"]
             if tx.shape != (n_exp, 1 + cfg["dim"]) or any(float(t) not in store_t for t in tx[:, 0]) or any(tuple(r) not in store_x for r in tx[:, 1:].tolist()):
                 fails.append(f"call {k}: space-time batch of shape {tx.shape} or with a point outside the stores")
             if not (np.all(tx[:, 0] >= tmin) and np.all(tx[:, 0] <= tmax)):
@@ -103,6 +103,9 @@ def one(rng, cid, cases, viol, dist, samples):
                 nt = rng.choice([3, 5, 49]); bt = rng.randint(1, 3)
                 cfg.update(nt=nt, bt=bt, tmin=tmin, tmax=tmax)
                 rkw = {}
+                pairing = (not use_rar) and rng.random() < 0.4
+                if pairing:
+                    bt = bx; cfg.update(bt=bt, pairing=True); rkw = dict(cartesian_product=False)
                 if use_rar and nt >= 5 and n >= 4:
                     bt = min(bt, 2); bx = min(bx, 2); cfg.update(bt=bt, bx=bx)
                     rkw = dict(rar_parameters={"start_iter": 0, "update_every": 1, "sample_size_times": 3, "selected_sample_size_times": 1,
